@@ -14,6 +14,13 @@
 //!     keyed answers of the affinity policies must be a function of (key, spec's eligible-set
 //!     signature) over the whole replay (all behaviours: the hash seed is a constant).
 //!
+//! Time: `Elapse(d)` moves every backend's `last_try` d seconds into the past before the next call; `RetryFail`
+//! is the real `fail()` - whether it counts, what it stamps and the window it draws are the policy's doing.
+//! The drawn length (unseeded random) is checked against the range TLC printed (`wmax`) and then replaced by
+//! the length TLC drew, so that the history can go on. Real time that passes during a history adds to every
+//! age; a history that took longer than `--slack-ms` is executed again (up to 3 times) and, if it never fits,
+//! reported as inconclusive (class harness:slow), never judged.
+//!
 //! stdout: {"kind":"violation","class":..,"detail":..}* {"kind":"summary",...}
 
 use std::collections::{BTreeMap, BTreeSet};
@@ -50,6 +57,12 @@ struct Stats {
     dev_explained: u64,
     by_policy: BTreeMap<String, u64>,
     by_op: BTreeMap<String, u64>,
+    counted: u64,
+    ignored: u64,
+    max_tries_seen: u64,
+    max_wsec: u64,
+    probes_waiting: u64,
+    reinstalls: u64,
 }
 
 struct Ctx {
@@ -57,6 +70,7 @@ struct Ctx {
     reps: u32,
     hcap: u32,
     max_tries: usize,
+    age_cap: u64,
     dev_maglev: bool,
     aff_fine: BTreeMap<String, i64>,
     aff_coarse: BTreeMap<String, i64>,
@@ -82,9 +96,21 @@ fn exec(w: &mut World, step: &Value) -> Result<Option<Value>, String> {
         }
         "Health" => Some(json!(w.health(C, oid, step["up"].as_bool().unwrap(), step["th"].as_u64().unwrap() as u32))),
         "ResetHealth" => { w.reset_health(C); None }
-        "RetryFail" => { w.retry_fail(C, oid); None }
+        "RetryFail" => {
+            w.retry_fail(C, oid);
+            if step["counted"].as_bool().unwrap_or(false) {
+                // the window the real policy drew must be one the spec allows; the history goes on with TLC's draw
+                let (_, wait, _) = w.retry_view(C, oid);
+                let wmax = step["wmax"].as_u64().unwrap_or(0);
+                if wait.subsec_nanos() != 0 || wait.as_secs() < 1 || wait.as_secs() > wmax {
+                    return Err(format!("window: a counted failure drew a window of {wait:?}, the spec allows 1..={wmax} s"));
+                }
+                w.redraw_window(C, oid, step["w"].as_u64().unwrap());
+            }
+            None
+        }
         "RetrySucceed" => { w.retry_succeed(C, oid); None }
-        "Elapse" => { w.elapse(C, oid); None }
+        "Elapse" => { w.elapse_all(step["d"].as_u64().unwrap()); None }
         "SetClosing" => { w.set_closing(C, oid); None }
         "Inc" => Some(json!(w.inc(C, oid))),
         "Dec" => Some(json!(w.dec(C, oid))),
@@ -103,7 +129,7 @@ fn state_diff(real: &Value, snap: &Value) -> Option<String> {
         return Some(format!("live objects: real {} spec {}", r.len(), s.len()));
     }
     for (a, b) in r.iter().zip(s.iter()) {
-        for f in ["oid", "id", "addr", "backup", "sticky", "w", "st", "h", "cs", "cf", "tries", "wait", "conns", "reqs", "out", "rout", "avail"] {
+        for f in ["oid", "id", "addr", "backup", "sticky", "w", "st", "h", "cs", "cf", "tries", "wait", "left", "conns", "reqs", "out", "rout", "avail"] {
             if a[f] != b[f] {
                 return Some(format!("object {} field {}: real {} spec {}", b["oid"], f, a[f], b[f]));
             }
@@ -114,12 +140,17 @@ fn state_diff(real: &Value, snap: &Value) -> Option<String> {
 
 fn replay(ctx: &mut Ctx, beh: &[Value], variant: u64) -> Result<(), Viol> {
     let mut w = World::new(addr_table(3, variant, 0));
-    w.retry_budget = Some(ctx.max_tries);
+    // the instance's retry budget and age cap travel with the behaviour (so that a replay file is self-contained)
+    w.retry_budget = Some(beh.first().and_then(|s| s["mt"].as_u64()).map(|n| n as usize).unwrap_or(ctx.max_tries));
+    w.age_cap = beh.first().and_then(|s| s["ac"].as_u64()).unwrap_or(ctx.age_cap);
     for (i, snap) in beh.iter().enumerate() {
         let step = &snap["step"];
         ctx.stats.steps += 1;
         *ctx.stats.by_op.entry(step["op"].as_str().unwrap_or("?").to_string()).or_default() += 1;
-        let ret = exec(&mut w, step).map_err(|e| Viol { class: "harness".into(), what: e })?;
+        let ret = exec(&mut w, step).map_err(|e| match e.strip_prefix("window: ") {
+            Some(m) => Viol { class: "replay:window".into(), what: format!("step {i} {step}: {m}") },
+            None => Viol { class: "harness".into(), what: e },
+        })?;
         if let (Some(r), Some(exp)) = (&ret, step.get("ret")) {
             if r != exp {
                 return Err(Viol { class: "replay:ret".into(), what: format!("step {i} {step}: the call returned {r}, the spec says {exp}") });
@@ -130,6 +161,18 @@ fn replay(ctx: &mut Ctx, beh: &[Value], variant: u64) -> Result<(), Viol> {
             return Err(Viol { class: "replay:state".into(), what: format!("after step {i} {step}: {d}") });
         }
         // coverage bookkeeping
+        match step["op"].as_str().unwrap_or("") {
+            "RetryFail" => if step["counted"].as_bool().unwrap_or(false) { ctx.stats.counted += 1 } else { ctx.stats.ignored += 1 },
+            "SetPolicy" => if snap["list"].as_array().map(|l| l.len() >= 2).unwrap_or(false) { ctx.stats.reinstalls += 1 },
+            _ => {}
+        }
+        for o in snap["objs"].as_array().unwrap() {
+            ctx.stats.max_tries_seen = ctx.stats.max_tries_seen.max(o["tries"].as_u64().unwrap_or(0));
+            ctx.stats.max_wsec = ctx.stats.max_wsec.max(o["wsec"].as_u64().unwrap_or(0));
+        }
+        if snap["objs"].as_array().unwrap().iter().any(|o| o["wait"].as_bool().unwrap() && snap["list"].as_array().unwrap().contains(&o["oid"])) {
+            ctx.stats.probes_waiting += 1;
+        }
         let mut joint = Vec::new();
         for o in snap["objs"].as_array().unwrap() {
             let listed = snap["list"].as_array().unwrap().contains(&o["oid"]);
@@ -226,15 +269,19 @@ fn main() {
         reps,
         hcap,
         max_tries: arg("--max-tries", "2").parse().unwrap_or(2),
+        age_cap: arg("--age-cap", "4").parse().unwrap_or(4),
         dev_maglev: devs.split(',').any(|d| d == "MaglevRebuild"),
         aff_fine: BTreeMap::new(),
         aff_coarse: BTreeMap::new(),
-        stats: Stats { probes: 0, probes_multi: 0, steps: 0, per_obj: BTreeSet::new(), joint: BTreeSet::new(), dev_explained: 0, by_policy: BTreeMap::new(), by_op: BTreeMap::new() },
+        stats: Stats { probes: 0, probes_multi: 0, steps: 0, per_obj: BTreeSet::new(), joint: BTreeSet::new(), dev_explained: 0, by_policy: BTreeMap::new(), by_op: BTreeMap::new(),
+                       counted: 0, ignored: 0, max_tries_seen: 0, max_wsec: 0, probes_waiting: 0, reinstalls: 0 },
     };
     let variant = rng.next();
     let mut histories = 0u64;
     let mut violations = 0u64;
     let mut samples = Vec::new();
+    let slack = std::time::Duration::from_millis(arg("--slack-ms", "400").parse().unwrap_or(400));
+    let mut slow_attempts = 0u64;
     for line in BufReader::new(std::io::stdin()).lines() {
         let line = line.expect("stdin");
         if !line.starts_with('[') {
@@ -243,11 +290,25 @@ fn main() {
         let beh: Vec<Value> = serde_json::from_str(&line).expect("behaviour line");
         histories += 1;
         let labels: Vec<Value> = beh.iter().map(|s| s["step"].clone()).collect();
-        let r = catch_unwind(AssertUnwindSafe(|| replay(&mut ctx, &beh, variant)));
-        let v = match r {
-            Ok(Ok(())) => None,
-            Ok(Err(v)) => Some(v),
-            Err(p) => Some(Viol { class: "panic".into(), what: format!("sozu panicked: {}", vh::util::panic_message(p)) }),
+        // a verdict only counts if the history ran within the slack (real time adds to every back-off age)
+        let mut attempts = 0;
+        let v = loop {
+            attempts += 1;
+            let t0 = std::time::Instant::now();
+            let r = catch_unwind(AssertUnwindSafe(|| replay(&mut ctx, &beh, variant)));
+            let took = t0.elapsed();
+            if took > slack {
+                slow_attempts += 1;
+                if attempts < 3 {
+                    continue;
+                }
+                break Some(Viol { class: "harness:slow".into(), what: format!("the history took {took:?} (> {slack:?}) three times: inconclusive") });
+            }
+            break match r {
+                Ok(Ok(())) => None,
+                Ok(Err(v)) => Some(v),
+                Err(p) => Some(Viol { class: "panic".into(), what: format!("sozu panicked: {}", vh::util::panic_message(p)) }),
+            };
         };
         if let Some(v) = v {
             violations += 1;
@@ -262,5 +323,9 @@ fn main() {
         "probes_with_several_admissible":ctx.stats.probes_multi,"violations":violations,
         "per_backend_state_combinations":ctx.stats.per_obj.len(),"joint_state_combinations":ctx.stats.joint.len(),
         "affinity_points":ctx.aff_fine.len(),"deviation_explained":ctx.stats.dev_explained,
-        "by_policy":ctx.stats.by_policy,"by_op":ctx.stats.by_op,"samples":samples}));
+        "by_policy":ctx.stats.by_policy,"by_op":ctx.stats.by_op,"slow_attempts":slow_attempts,
+        "backoff":{"counted_failures":ctx.stats.counted, "ignored_failures":ctx.stats.ignored, "max_tries_seen":ctx.stats.max_tries_seen,
+                   "max_window_seen":ctx.stats.max_wsec, "selections_with_a_backend_in_its_window":ctx.stats.probes_waiting,
+                   "reinstalls_on_populated_cluster":ctx.stats.reinstalls},
+        "samples":samples}));
 }
